@@ -241,11 +241,30 @@ def close(a, b):
     return abs(a - b) <= TOL + 1e-9 * max(abs(a), abs(b))
 
 
-def predicate(chk, case, res, desc):
-    """property clauses on the implementation's result `res` = [(sorted names, score)]"""
+def predicate(chk, case, res, desc, snap=None):
+    """property clauses on the implementation's result `res` = [(sorted names, score)]; `snap` = the recorded LP of this call (when a
+    clause about scores fails, the same LP is solved by an independent solver: desc['cbc_suboptimal'] tells whether CBC itself
+    answered 'optimal' with a non-optimal point on it)"""
+    fails0 = len(chk.failures)
     table, forms, dele = exact_table(case)
     gap = F(repr(case["par"]["gap"]))
     seen = set()
+
+    def cut_away(o, S):
+        """could the exclusion cuts of solutions() have removed this form?  (it strictly contains a feasible form that scores no worse,
+        which is yielded first and whose cut excludes every superset)"""
+        return any(S2 < S and float(o2) <= float(o) + TOL for o2, S2 in forms)
+
+    def by_superset_cuts(k, reported_score):
+        """every explanation of structure k that scores below `reported_score` (None: below the gap bound) is removed by a superset cut,
+        and (for a reported structure) the reported score is the objective of one of its other explanations"""
+        mine = [(o, S) for o, S in forms if fold(S, dele) == k]
+        limit = reported_score if reported_score is not None else float((1 + gap) * min(table.values())) + 1e-5
+        better = [(o, S) for o, S in mine if float(o) < limit - 2 * TOL]
+        if not better or not all(cut_away(o, S) for o, S in better):
+            return False
+        return reported_score is None or any(close(reported_score, float(o)) for o, _ in mine)
+
     for names, score in res:
         ok, why = wellformed(case, names)
         if not ok:
@@ -257,14 +276,17 @@ def predicate(chk, case, res, desc):
         if k not in table:
             chk.fail("score", desc, case, f"structure {k} has no feasible explanation", res)
         elif not close(score, float(table[k])):
-            chk.fail("score", desc, case, {"structure": k, "best_explanation": float(table[k])}, res)
+            chk.fail("score", dict(desc, superset_cut=bool(gap > 0 and score > float(table[k]) and by_superset_cuts(k, score))), case,
+                     {"structure": k, "best_explanation": float(table[k])}, res)
     if not table:
         if res:
             chk.fail("optimal", desc, case, "no admissible structure exists", res)
+        _mark_solver_faults(chk, fails0, snap)
         return table
     best = min(table.values())
     if not res:
         chk.fail("optimal", desc, case, {"best_admissible": float(best), "reported": "nothing"}, res)
+        _mark_solver_faults(chk, fails0, snap)
         return table
     rbest = min(s for _, s in res)
     if not close(rbest, float(best)):
@@ -280,8 +302,21 @@ def predicate(chk, case, res, desc):
         if float(t) < ub - 2 * TOL and k not in seen:
             ck = Counter(k)
             if not any(all(ck[n] >= v for n, v in r.items()) and s <= float(t) + TOL for r, s in rep):
-                chk.fail("complete", desc, case, {"missing": k, "objective": float(t)}, res)
+                chk.fail("complete", dict(desc, superset_cut=bool(gap > 0 and by_superset_cuts(k, None))), case,
+                         {"missing": k, "objective": float(t)}, res)
+    _mark_solver_faults(chk, fails0, snap)
     return table
+
+
+def _mark_solver_faults(chk, start, snap):
+    new = [f for f in chk.failures[start:] if f["clause"] in ("score", "optimal", "complete", "within-gap")]
+    if not new:
+        return
+    faults = snap.solver_faults() if snap is not None else []
+    for f in new:
+        f["desc"] = dict(f["desc"], cbc_suboptimal=bool(faults))
+        if faults:
+            f["observed"] = {"reported": f["observed"], "cbc_vs_independent_solver (iteration, CBC, SCIP)": [list(map(str, x)) for x in faults[:4]]}
 
 
 # ------------------------------------------------------------------ structural tie
@@ -707,7 +742,7 @@ def evaluate(chk, cases, n_struct_big=12, n_table=60):
         if res[0] != "ok":
             tables.append(None)
             continue
-        table = predicate(chk, c, res[1], desc_of(c))
+        table = predicate(chk, c, res[1], desc_of(c), snap)
         tables.append(table)
         chk.case(stream, c, nontrivial=bool(table), sample={"case": c, "implementation": res[1]})
         chk.count(stream, f"structures:{min(len(res[1]), 4)}{'+' if len(res[1]) >= 4 else ''}")
@@ -773,7 +808,11 @@ def evaluate(chk, cases, n_struct_big=12, n_table=60):
             # must/may reading: what the implementation reports is still checked by the predicate (admissible, in the gap, complete)
             chk.count(stream, "ambiguous-within-tolerance")
         elif not sols_equal(res[1], msols):
-            chk.mismatch("cn-solve", c, [(n, float(s)) for n, s in msols], res[1])
+            if snap is not None and snap.solver_faults():
+                # the premise of the behavioural tie (CBC meets the solver contract of C05) fails on this model: known finding
+                chk.count(stream, "cbc-fault:not-compared")
+            else:
+                chk.mismatch("cn-solve", c, [(n, float(s)) for n, s in msols], res[1])
         if want_tab:
             mt = {tuple(n): s for n, s in d_sols(tab)}
             if mt != table:
